@@ -434,6 +434,17 @@ func instrMapOrder(repo, pkg, out string, overlay map[string]string) (int, error
 			return true
 		})
 		entries := 0
+		if accessPkgs[pkg] {
+			// the compiler's own locks and once-guards must be the scheduler's: a real sync.Once or
+			// Mutex held across a scheduling point would block the only running goroutine for good
+			for _, im := range f.Imports {
+				if im.Path.Value == `"sync"` {
+					im.Path.Value = `"verif/vsync"`
+					im.Name = ast.NewIdent("sync")
+					entries++
+				}
+			}
+		}
 		if len(written) > 0 {
 			entries += instrAccesses(f, pkg, info, written)
 		}
